@@ -311,6 +311,31 @@ def run (P : Prims) : PEnv → List Stmt → Except Err Rat
 def relEnv (rel : Rel) (L a b : Rat) : PEnv :=
   [("length", .num L), (rel.in1.name, .num a), (rel.in2.name, .num b)]
 
+/-! ### the function a body hands to `brentq`, evaluated exactly -/
+
+/-- the local function `def f(p): return e` of a body -/
+def findDefn : List Stmt → String → Option (String × Expr)
+  | [], _ => none
+  | .defn g p e :: rest, f => if g = f then some (p, e) else findDefn rest f
+  | _ :: rest, f => findDefn rest f
+
+/-- the name of the function in the final `return brentq(f, …)` / `return int(brentq(f, …)) + 1` -/
+def brentqFn : List Stmt → Option String
+  | [] => none
+  | [.ret (.brentq f _ _)] => some f
+  | [.ret (.add (.int (.brentq f _ _)) (.lit 1))] => some f
+  | _ :: rest => brentqFn rest
+
+/-- the function of the source whose root the body returns, as translated, evaluated exactly at the rational point `x`
+    with the relation's arguments `env` (`unmodelled` when it is not an exact rational operation: fractional powers) -/
+def solverFn (env : PEnv) (body : List Stmt) (x : Rat) : Except Err Rat :=
+  match brentqFn body with
+  | none => .error .table
+  | some f =>
+      match findDefn body f with
+      | none => .error .table
+      | some (p, e) => evalE ((p, .num x) :: env) e
+
 /-! ### the bodies as the model knows them (pinned to the generated token lists by `T_C03_translated_source_*`; locals are named `v0, v1, …` in order of first appearance, as the translator renames them) -/
 
 /-- `get_c2c_expansion__count__end_size` -/
